@@ -38,6 +38,8 @@ func splitName(s string) [][]byte {
 				out = append(out, cur)
 			}
 			cur = []byte{}
+		} else if s[i] == '|' {
+			cur = append(cur, '.') // a dot inside a label
 		} else {
 			cur = append(cur, s[i])
 		}
@@ -105,6 +107,9 @@ func (m msgSpec) encode() []byte {
 	return b
 }
 
+// dottedLabels: engines that build query names on the wire may put a dot inside a label
+var dottedLabels bool
+
 var labelAlphabet = []byte("abcdefghijklmnopqrstuvwxyzABCDEFGHIJKLMNOPQRSTUVWXYZ0123456789-_")
 
 func randLabel(r *rng, maxLen int) []byte {
@@ -112,6 +117,9 @@ func randLabel(r *rng, maxLen int) []byte {
 	b := make([]byte, n)
 	for i := range b {
 		b[i] = labelAlphabet[r.intn(len(labelAlphabet))]
+	}
+	if dottedLabels && n >= 3 && r.coin(4) {
+		b[r.rng(1, n-2)] = '.' // a dot inside a label
 	}
 	return b
 }
